@@ -672,7 +672,7 @@ fn prefix(r: &mut Rng, h: &Hdr, k: u64) -> (Vec<Ins>, Machine) {
 }
 
 fn probe(ctx: &mut Ctx) {
-    let nh = ctx.size(384, 3200, 8);
+    let nh = ctx.size(384, 1600, 8);
     for hi in 0..nh {
         for pk in 0..NPRE {
             let idx = hi * NPRE + pk;
@@ -725,7 +725,7 @@ fn probe(ctx: &mut Ctx) {
 }
 
 fn progs(ctx: &mut Ctx) {
-    let n = ctx.size(80_000, 800_000, 10);
+    let n = ctx.size(80_000, 500_000, 10);
     for i in 0..n {
         if !ctx.want("prog", i) {
             continue;
@@ -766,7 +766,7 @@ fn progs(ctx: &mut Ctx) {
 }
 
 fn hdrs(ctx: &mut Ctx) {
-    let n = ctx.size(40_000, 400_000, 10);
+    let n = ctx.size(40_000, 250_000, 10);
     for i in 0..n {
         if !ctx.want("hdr", i) {
             continue;
@@ -889,7 +889,7 @@ fn invariant_case(ctx: &mut Ctx, stream: &str, line: &[u8], offset: usize, enc: 
 }
 
 fn inv_bytes(ctx: &mut Ctx) {
-    let n = ctx.size(80_000, 800_000, 10);
+    let n = ctx.size(80_000, 500_000, 10);
     for i in 0..n {
         if !ctx.want("inv.bytes", i) {
             continue;
@@ -944,7 +944,7 @@ fn inv_bytes(ctx: &mut Ctx) {
 }
 
 fn inv_mut(ctx: &mut Ctx) {
-    let n = ctx.size(80_000, 800_000, 10);
+    let n = ctx.size(80_000, 500_000, 10);
     for i in 0..n {
         if !ctx.want("inv.mut", i) {
             continue;
